@@ -40,10 +40,11 @@ def run(case):
             if k == "send":
                 _, _, tag, rid, d = op[:5]
                 name = op[5] if len(op) > 5 else "msg"
+                sender = op[6] if len(op) > 6 else 0
                 if d is None:
-                    ev = Event(name, 0, rid, data=tag); extra = 0
+                    ev = Event(name, sender, rid, data=tag); extra = 0
                 else:
-                    ev = DelayedEvent(name, 0, rid, delay=d * dt, data=tag); extra = int(math.ceil(d))   # ceil((d*dt)/dt)
+                    ev = DelayedEvent(name, sender, rid, delay=d * dt, data=tag); extra = int(math.ceil(d))   # ceil((d*dt)/dt)
                 m.enqueue_event(ev)
                 expected.append([tag, rid, g + extra])
             elif k == "delete":
@@ -99,7 +100,7 @@ def gen(rnd):
             r = rnd.random()
             if r < 0.6:
                 d = None if rnd.random() < 0.5 else rnd.choice([0, 1, 2, 3, 0.5, 1.5, 2.25])
-                ops.append((g, 'send', ('p' if d is None else 'd') + str(tag), rnd.randint(0, nxt), d, rnd.choice(['msg', 'note'])))
+                ops.append((g, 'send', ('p' if d is None else 'd') + str(tag), rnd.randint(0, nxt), d, rnd.choice(['msg', 'note']), rnd.randint(0, nxt)))
                 tag += 1
                 if rnd.random() < 0.3:
                     # a burst to one agent with interleaved event names
